@@ -409,6 +409,10 @@ func (w *world) monitor(ctx sdkCtx, o op, before, after *snap, blockedAcc []bool
 			frame(o.C)
 		} else if o.C < before.n {
 			v := new(big.Int).Mod(x, u256)
+			if isNR(o.C) && v.Cmp(before.erc[o.C][o.I]) > 0 {
+				// the old-style token answers "false": the call succeeds and nothing moves
+				break
+			}
 			sub(&exp.erc[o.C][o.I], v)
 			add(&exp.erc[o.C][o.R], v)
 			if v.Cmp(before.erc[o.C][o.I]) > 0 {
@@ -656,8 +660,8 @@ func (w *world) blockedList() []bool {
 }
 
 func (w *world) coqEnvState(s *snap) string {
-	env := fmt.Sprintf("(mk_envx %s %s %s %s %s %s %s %s)", Nat(nAcc), Nat(nDenom), Nat(accM), Nat(accZero),
-		BoolList(w.blockedList()), natList(pairDenom), BoolList(evilCtr), BoolList(isBep3))
+	env := fmt.Sprintf("(mk_envx %s %s %s %s %s %s %s %s)\n  %s", Nat(nAcc), Nat(nDenom), Nat(accM), Nat(accZero),
+		BoolList(w.blockedList()), natList(pairDenom), BoolList(evilCtr), BoolList(isBep3), BoolList(nrCtr))
 	brows := make([]string, nAcc)
 	for a := range brows {
 		brows[a] = ZList(s.bal[a])
@@ -688,7 +692,7 @@ type hist struct {
 	Ops  []op   `json:"ops"`
 }
 
-const coqHeader = "From Kava Require Import Base.Prelude Model.Erc20 Model.Evmutil."
+const coqHeader = "From Kava Require Import Base.Prelude Model.Erc20 Model.Evmutil Model.EvmutilNR."
 
 type runOut struct {
 	ops    []op
@@ -851,7 +855,7 @@ func runHistory(seed uint64, idx, n int, ops []op, cnt *Counters) runOut {
 		}
 		prev = after
 	}
-	out.coq = fmt.Sprintf("mkHist %s\n  %s", header, List(steps))
+	out.coq = fmt.Sprintf("mkHistX %s\n  %s", header, List(steps))
 	return out
 }
 
@@ -943,6 +947,22 @@ func splits(o op, cls Class, err error, before, after *snap, blockedAcc []bool, 
 		if ok && x.Sign() > 0 && eq(x, before.erc[o.C][o.I]) {
 			mark("amount:exact-balance-ok")
 		}
+		if d >= 0 && isNR(o.C) && o.I != accM && x.Sign() > 0 && x.Cmp(u256) < 0 {
+			// the old-style pair: initiators holding nothing, one unit less than the amount, exactly the amount
+			hold := before.erc[o.C][o.I]
+			switch {
+			case ok && eq(x, hold):
+				mark("e2c:old-style:exact-balance-ok")
+			case ok:
+				mark("e2c:old-style:ok")
+			case !ok && hold.Sign() == 0:
+				mark("e2c:old-style:zero-balance-initiator-refused")
+			case !ok && eq(new(big.Int).Add(hold, big.NewInt(1)), x):
+				mark("e2c:old-style:one-unit-short-refused")
+			case !ok && x.Cmp(hold) > 0:
+				mark("e2c:old-style:short-refused")
+			}
+		}
 	case "cos2e":
 		if isLook(o.D) && !ok {
 			mark("cos2e:lookalike-denom-refused")
@@ -997,6 +1017,9 @@ func splits(o op, cls Class, err error, before, after *snap, blockedAcc []bool, 
 		}
 		if ok && isEvil(o.C) {
 			mark("xfer:approval-emitting-token")
+		}
+		if ok && isNR(o.C) && new(big.Int).Mod(x, u256).Cmp(before.erc[o.C][o.I]) > 0 {
+			mark("xfer:old-style:returned-false")
 		}
 		if !ok && o.R == accZero && o.C < before.n && !isEvil(o.C) {
 			mark("xfer:zero-address-refused")
@@ -1079,6 +1102,9 @@ var allSplits = []string{
 	// parameter changes
 	"params:ok", "params:ok:keeper-set-params", "params:duplicate-address-refused", "params:duplicate-denom-refused", "params:malformed-pair-refused",
 	"params:malformed-or-duplicate-token-refused",
+	// the old-style pair (transfer returns false instead of reverting)
+	"e2c:old-style:exact-balance-ok", "e2c:old-style:ok", "e2c:old-style:zero-balance-initiator-refused",
+	"e2c:old-style:one-unit-short-refused", "e2c:old-style:short-refused", "xfer:old-style:returned-false",
 }
 
 func run(o Opts) (*Result, error) {
@@ -1087,7 +1113,7 @@ func run(o Opts) (*Result, error) {
 		n = defaultLen
 	}
 	res := &Result{Property: "C10", Seed: o.Seed,
-		Rule: "histories of " + fmt.Sprint(n) + " transactions (the four evmutil conversions through ValidateBasic + the app's message router or the keeper; ERC20 transfer/mint/approve/transferFrom in the real EVM on the compiled OpenZeppelin contracts and on an Approval-emitting token; bank MsgSend; parameter-change proposals, well-formed and malformed, through the governance handler; multi-message transactions; receivers include the module, a blocked module account and the zero address) generated from splitmix64(seed, history index) on a fresh app.TestApp; every transaction runs on a cached context discarded on failure; a history is non-trivial when it contains at least one successful conversion in each family (EVM-native and cosmos-native) and at least one refused conversion; distinct by hash of the operation list"}
+		Rule: "histories of " + fmt.Sprint(n) + " transactions (the four evmutil conversions through ValidateBasic + the app's message router or the keeper; ERC20 transfer/mint/approve/transferFrom in the real EVM on the compiled OpenZeppelin contracts, on an Approval-emitting token and on an old-style token whose transfer returns false instead of reverting (initiators holding nothing, one unit less than the amount, exactly the amount); bank MsgSend; parameter-change proposals, well-formed and malformed, through the governance handler; multi-message transactions; receivers include the module, a blocked module account and the zero address) generated from splitmix64(seed, history index) on a fresh app.TestApp; every transaction runs on a cached context discarded on failure; a history is non-trivial when it contains at least one successful conversion in each family (EVM-native and cosmos-native) and at least one refused conversion; distinct by hash of the operation list"}
 	cnt := NewCounters()
 
 	if o.Replay != "" {
@@ -1100,7 +1126,7 @@ func run(o Opts) (*Result, error) {
 			return nil, err
 		}
 		out := runHistory(h.Seed, h.Idx, 0, h.Ops, cnt)
-		name, err := WriteShard(o.OutDir, 0, coqHeader, []string{out.coq}, "mismatches")
+		name, err := WriteShard(o.OutDir, 0, coqHeader, []string{out.coq}, "mismatches_x")
 		if err != nil {
 			return nil, err
 		}
@@ -1149,7 +1175,7 @@ func run(o Opts) (*Result, error) {
 		if len(cases) == 0 {
 			return nil
 		}
-		name, err := WriteShard(o.OutDir, shard, coqHeader, cases, "mismatches")
+		name, err := WriteShard(o.OutDir, shard, coqHeader, cases, "mismatches_x")
 		if err != nil {
 			return err
 		}
